@@ -44,7 +44,7 @@ PV = [-2.0, -1.0, -0.5, 0.5, 1.0, 1.5, 2.0, 3.0, 0.0, 0.25]
 
 
 def run_lean_unit(lines):
-    return core.run_lean(lines, main="Driver/Main_State.lean")
+    return core.run_lean(lines)
 
 
 # ----------------------------------------------------------------------------- model recipes: build(values|None)
